@@ -17,7 +17,7 @@ from .C01 import arg_sets
 
 ID = 'C02'
 LEVEL = 'model_checking'
-RULE = ('tables: S(12)/S(16) ∪ F, two labelings; per table every non-empty subset of objects and '
+RULE = ('tables: S(12)/S(16) ∪ F, two labelings (quick tier: the second one on tables <= 9 cells and on the structured strata); per table every non-empty subset of objects and '
         'of properties (axis <= 8, else singletons/pairs/complements) through context[...], '
         'lattice[...], lattice(...), every integer index; non-trivial = lattice has > 2 concepts '
         'and is not a chain; distinct = distinct table')
@@ -242,7 +242,11 @@ def check_compound(rows, ctr):
 
 
 def run_shard(shard, tier):
-    res = e1.run_shard_generic(shard, tier, ID, check_case, variants=('pickle', 'fromdict-raw', 'used'))
+    # quick tier: the second (descending) labeling on tables up to 9 cells and on the structured
+    # strata only - a lookup does not compare labels, label order is C06's subject
+    both = tier != 'quick' or shard[0] != 'S' or shard[1] * shard[2] <= 9
+    res = e1.run_shard_generic(shard, tier, ID, check_case, both_labelings=both,
+                               variants=('pickle', 'fromdict-raw', 'used'))
     if shard[0] == 'S' and shard[1] * shard[2] <= 9:
         import collections
         from .. import space
